@@ -25,7 +25,8 @@ RULE = ('17 span types (unsorted NumPy labels, labels that are variable/alias/at
         'start/stop in labels+None+absent and step in {None,1,2,3} get/set, every (write path, position, read path) triple. '
         'non-trivial = access that addresses at least one cell or must be rejected with KeyError'
         " After each label write: the same write to a variable filled from a sibling's array (attribute, replace_values, add_variable) or from an array shared with a second variable: one cell of one variable changes, the caller's array does not."
-        ' Fourth object kind: the pandas extension; label writes after reindex(); prepared writes after a refused add_variable and after `values = kept array`; tuple absent labels on NumPy spans too.')
+        ' Fourth object kind: the pandas extension; label writes after reindex(); prepared writes after a refused add_variable and after `values = kept array`; tuple absent labels on NumPy spans too.'
+        ' Span types include range(2000, ..., 5); label slices assigned from list / tuple / ndarray with one value per addressed period.')
 ASSUMPTIONS = [
     'pandas partial-string labels, duplicate labels, labels equal under == and None as a slice bound are outside the property',
     'positions come from list(span).index(label)',
@@ -302,6 +303,27 @@ def run_slice_case(case):
                     out.append(('slice:set' + ('' if var == 'K' else ':tracking-variable'), want.tolist(), after[var].tolist() if exc is None else repr(exc)[:80], 'label slice wrote the wrong positions of %r' % var))
             if out:
                 break
+        # the same slice assigned from a list / tuple / array holding one value per addressed period (in order)
+        if not out and not has_absent:
+            addressed = list(range(pa, pb + 1, step or 1)) if pa <= pb else []
+            for flavour in ('list', 'tuple', 'ndarray'):
+                c, labels = make(kind, n, obj)
+                before = snap(c)
+                items = [-100 - q for q in range(len(addressed))]
+                value = items if flavour == 'list' else tuple(items) if flavour == 'tuple' else np.array(items)
+                try:
+                    c['K', sl] = value
+                    exc = None
+                except Exception as e:
+                    exc = e
+                after = snap(c)
+                want = before['K'].copy()
+                for q, posn in enumerate(addressed):
+                    want[posn] = items[q]
+                if exc is not None or any(not same(after[k], want if k == 'K' else before[k]) for k in before):
+                    out.append(('slice:set:one-value-per-period:%s' % flavour, want.tolist(), after['K'].tolist() if exc is None else repr(exc)[:80],
+                                'a label slice assigned from one value per addressed period stored something else (or was refused)'))
+                    break
     return out
 
 
